@@ -636,7 +636,7 @@ func TestVerifC14(t *testing.T) {
 		out.Count("mode:cache-" + cc.name)
 
 		// --- sequential phase: submissions (some with a fault at the k-th storage/cache call)
-		nSub := verifkit.N(10, 60)
+		nSub := verifkit.N(10, 150)
 		for k := 0; k < nSub; k++ {
 			s := pool[r.Intn(len(pool))]
 			fa := 0
@@ -646,7 +646,7 @@ func TestVerifC14(t *testing.T) {
 			e.submit(ind, s.chain, s.precert, fa)
 		}
 		// synthetic boundary lengths through the services
-		for k := 0; k < verifkit.N(6, 40); k++ {
+		for k := 0; k < verifkit.N(6, 100); k++ {
 			n := 1 + r.Intn(4)
 			if r.Intn(6) == 0 {
 				n = 1
@@ -665,7 +665,8 @@ func TestVerifC14(t *testing.T) {
 			e.synth(ind, certs, r.Bool())
 		}
 		if ci == 0 && verifkit.Thorough() {
-			e.synth(ind, [][]byte{r.Bytes(300), r.Bytes(1<<24 - 1)}, false) // 2^24-1: the largest certificate
+			// a chain whose DER lengths need three length bytes and whose TLS body is close to a megabyte
+			e.synth(ind, [][]byte{r.Bytes(300), r.Bytes(70000), r.Bytes(300000), r.Bytes(1 << 16)}, true)
 		}
 		// legacy entries: leaves that were stored with their full chain before the feature was enabled
 		for k := 0; k < 3 && e.dback.size() > 0; k++ {
@@ -689,7 +690,7 @@ func TestVerifC14(t *testing.T) {
 			e.serve(ind, i, false, 0, "")
 			e.serve(ind, i, true, 0, "")
 		}
-		for k := 0; k < verifkit.N(12, 80) && n > 0; k++ {
+		for k := 0; k < verifkit.N(12, 200) && n > 0; k++ {
 			e.serve(ind, r.Intn(n), r.Bool(), 1+r.Intn(2), "")
 		}
 		if strings.Contains(cc.name, "1ms") {
@@ -833,7 +834,7 @@ func (e *c14Env) concurrent(cc c14CacheCfg, pool []c14Sub) {
 	want := sync.Map{} // leaf value -> extra data of the in-backend mode
 	stop := make(chan struct{})
 	writers, readers := 3, 3
-	perWriter := verifkit.N(8, 40)
+	perWriter := verifkit.N(8, 100)
 	for w := 0; w < writers; w++ {
 		rr := e.r.Fork()
 		wg.Add(1)
